@@ -176,7 +176,7 @@ func (r *Reporter) Violation(sig, what string, replay func() interface{}) {
 		s.Replay = r.ReplayOf
 	} else if NoEvidence() {
 		// mutant / candidate-fix runs: keep /verif/replays for runs on the real tree
-		dir := filepath.Join(evlib.Root(), "build", "scratch-replays")
+		dir := filepath.Join(evlib.Root(), "build", "scratch-replays", fmt.Sprint(os.Getpid()))
 		_ = os.MkdirAll(dir, 0o755)
 		s.Replay = filepath.Join(dir, fmt.Sprintf("%s-%d.json", r.Prop, r.nReplay))
 		raw, _ := json.MarshalIndent(payload, "", " ")
